@@ -75,7 +75,7 @@ Stim ==
           /\ bq[e.n] # <<>> /\ Head(bq[e.n]) = <<e.c, e.i, e.toks[1].s>>      \* same oldest command as the real node
           /\ BkAnswer(e.n, <<e.kind, e.cls, e.to>>)
        \/ /\ e.ev = "expire" /\ e.fid # ""
-          /\ Expire /\ <<e.c, e.i, e.slots[1]>> \in expired'
+          /\ Expire(FALSE) /\ <<e.c, e.i, e.slots[1]>> \in expired'
   /\ l' = l + 1 /\ Mark(l + 1) /\ UNCHANGED <<l0, ievs>>
 
 \* ---- one iteration of the model
